@@ -51,4 +51,27 @@ theorem slice_between {α} (l : List α) (i j : Int) (hi : 0 ≤ i) (hj : 0 ≤ 
   · omega
   · congr 1; omega
 
+/-- `l[i:j]` for `0 ≤ i ≤ j`, clamping included -/
+theorem slice_mid {α} (l : List α) (i j : Int) (hi : 0 ≤ i) (hij : i ≤ j) :
+    Rt.slice l (some i) (some j) = (l.drop i.toNat).take (j.toNat - i.toNat) := by
+  simp only [Rt.slice, bound_nonneg _ _ hi, bound_nonneg _ _ (Int.le_trans hi hij)]
+  rw [List.drop_take]
+  by_cases h1 : i.toNat ≤ l.length
+  · rw [Nat.min_eq_left h1]
+    by_cases h2 : j.toNat ≤ l.length
+    · rw [Nat.min_eq_left h2]
+    · rw [Nat.min_eq_right (by omega)]
+      rw [List.take_of_length_le (by simp), List.take_of_length_le (by simp; omega)]
+  · have h3 : min i.toNat l.length = l.length := Nat.min_eq_right (by omega)
+    rw [h3, List.drop_of_length_le (Nat.le_refl _), List.drop_of_length_le (by omega)]
+    simp
+
+theorem slice_nat {α} (l : List α) (a b : Nat) (h : a ≤ b) :
+    Rt.slice l (some (a : Int)) (some (b : Int)) = (l.drop a).take (b - a) := by
+  rw [slice_mid _ _ _ (by omega) (by omega)]
+  simp
+
+theorem bind_ok_eq {α β} (a : α) (f : α → Outcome β) : (Outcome.ok a).bind f = f a := rfl
+theorem bind_escape_eq {α β} (k : ExcKind) (f : α → Outcome β) : (Outcome.escape k : Outcome α).bind f = .escape k := rfl
+
 end Cardutil.SrcTie
